@@ -87,7 +87,7 @@ struct ConnRec {
     bool swapped_in = false;           // (heuristic) the library wrote non-handshake data on it
 };
 
-enum class OpKind { run, pub0, pub1, pub2, sub, unsub, recv, disconnect };
+enum class OpKind { run, pub0, pub1, pub2, sub, unsub, recv, disconnect, s_read, s_write, s_shutdown };
 const char* op_kind_name(OpKind k);
 
 struct OpRec {
